@@ -289,11 +289,25 @@ def r3_candidates_only_narrow(ctx):
     ctx.touch(m)
     hits = []
     for st in all_stmts(m.node):
-        if isinstance(st, ast.If) and isinstance(st.test, ast.Compare) and isinstance(st.test.ops[0], ast.Is) and isinstance(st.test.comparators[0], ast.Constant) and st.test.comparators[0].value is None and isinstance(st.test.left, ast.Name):
-            hits.append(st)
-    ctx.require(hits, f"{m.key}: no `if <candidates> is None:` initialisation of the candidate set")
+        if isinstance(st, ast.If) and st.orelse:
+            seeded = [s for s in st.body if isinstance(s, ast.Assign) and isinstance(s.targets[0], ast.Name) and isinstance(s.value, ast.Call) and call_name(s.value) in ("set", "frozenset")]
+            if seeded and any(isinstance(x, ast.Name) and x.id == seeded[0].targets[0].id for x in ast.walk(st.test)):
+                hits.append((st, seeded[0].targets[0].id))
+    ctx.require(hits, f"{m.key}: the seeding of the candidate set from the first position's candidates was not found")
+    for st, name in hits:
+        t = st.test
+        is_none = isinstance(t, ast.Compare) and len(t.ops) == 1 and isinstance(t.ops[0], ast.Is) and dotted(t.left) == name and isinstance(t.comparators[0], ast.Constant) and t.comparators[0].value is None
+        ctx.ob(
+            f"{m.key}:{name}:seeded-once",
+            m.loc(st),
+            f"the candidate set is seeded only while it is still uninitialised (`{name} is None`), never again once a position has emptied it",
+            is_none,
+            f"`if {short(t, 40)}:` also re-seeds a candidate set that an earlier argument has already narrowed to nothing: a method that does not accept the first argument becomes a candidate through a later one",
+        )
+    hits = [st for st, name in hits]
+    names_of = {id(st): [s for s in st.body if isinstance(s, ast.Assign)][0].targets[0].id for st in hits}
     for st in hits:
-        name = st.test.left.id
+        name = names_of[id(st)]
         ok = bool(st.orelse)
         bad = None
         for s in st.orelse:
@@ -326,28 +340,47 @@ def r6_bound_before_predicate(ctx):
     ctx.touch(ic)
     rv = recv_name(ic)
     arg = [p for p in ic.params if p != rv][0]
-    rets = [n for n in ast.walk(ic.node) if isinstance(n, ast.Return) and n.value is not None]
-    ok = bool(rets)
-    for r in rets:
+    from .common import holds_at
+
+    checks = [c for c in ast.walk(ic.node) if isinstance(c, ast.Call) and is_self_attr(c.func, "check", selfname=rv)]
+    ok = bool(checks)
+
+    def bound_test(a):
+        return a[0] == "truthy" and isinstance(a[1], ast.Call) and call_name(a[1]) == "isinstance" and len(a[1].args) == 2 and dotted(a[1].args[0]) == arg and is_self_attr(a[1].args[1], "bound", selfname=rv)
+
+    for c in checks:
+        ok = ok and [dotted(x) for x in c.args] == [arg] and holds_at(ctx, ic, c, bound_test)
+    # and the result is that conjunction: no return bypasses the predicate with a truthy constant
+    for r in [n for n in ast.walk(ic.node) if isinstance(n, ast.Return) and n.value is not None]:
         v = r.value
-        good = False
-        if isinstance(v, ast.BoolOp) and isinstance(v.op, ast.And) and len(v.values) >= 2:
-            first = v.values[0]
-            rest = v.values[1:]
-            bound_first = isinstance(first, ast.Call) and call_name(first) == "isinstance" and dotted(first.args[0]) == arg and is_self_attr(first.args[1], "bound", selfname=rv)
-            pred_later = any(isinstance(x, ast.Call) and is_self_attr(x.func, "check", selfname=rv) for x in rest)
-            good = bound_first and pred_later
-        ok = ok and good
+        if isinstance(v, ast.Constant) and v.value:
+            ok = False
     ctx.ob(
         f"{ic.key}:bound-first",
         ic.loc(),
-        "isinstance(value, dependent type) is a short-circuit conjunction whose first operand tests the bound and a later one the condition",
+        "isinstance(value, dependent type) evaluates the condition only where the bound test has already succeeded (short-circuit conjunction or early exit)",
         ok,
         "the condition is evaluated without (or before) the bound test: a user predicate runs on a value outside its bound, and a value outside the bound can match",
     )
 
 
+def r4_key_and_argument_agree(ctx):
+    from .c03 import r2_one_name_three_roles
+    from .c09 import r3_each_argument_once
+
+    r2_one_name_three_roles(ctx)
+    r3_each_argument_once(ctx)
+
+
+def r5_value_checks_cover_every_dependent_parameter(ctx):
+    from .c10 import r2
+
+    r2(ctx)
+
+
 RULES = [
+    ("C01.R4", "P1", r4_key_and_argument_agree, "key and forwarded argument agree (entry point and rewritten call sites)"),
+    ("C01.R5", "P1", r5_value_checks_cover_every_dependent_parameter, "value checks are installed for every dependent parameter"),
     ("C01.R1", "P1", r1_filter_feeds_rank, "applicability filter feeds the ranking"),
     ("C01.R2", "P1", r2_arity_keyword_filter, "arity / required-keyword filter"),
     ("C01.R3", "P1", r3_candidates_only_narrow, "candidates only narrow"),
